@@ -53,3 +53,8 @@ CLAIMS["C09"] = (
     "Generated particle clouds placed on, inside and beyond every face with non-zero shifts, 1..4 tomograms with own dimensions/masks/points; the four filters' survivor lists are compared (set, order, all fields) with the analytic predicate. Held on everything explored except the listed known finding (lower faces never tested in out-of-bounds removal), which is reported as KNOWN-FINDING and excluded by exact signature.",
     "Dimension tables list every tomogram; distance ties and positions in (-1,0) for masks are excluded by construction/filter.",
 )
+CLAIMS["C10"] = (
+    "property-based test against an explicit-matrix orbit oracle (R_parent Rz(360k/n), centre + R_out s), exhaustive over n = 1..64 x four spellings in the thorough tier",
+    "Generated particle lists, every symmetry order up to 64 in all spellings and general/on-axis offsets; each output is matched to its parent and subunit index and compared with the orbit formula, id/field discipline and the integer-position invariant. Held on everything explored.",
+    "Unique input ids; row order of the output not constrained.",
+)
